@@ -26,6 +26,7 @@ func (s *Spec) Eff(t *Type) Eff {
 	if t.V != nil {
 		e.Vs = append(e.Vs, t.V)
 	}
+	e.Vs = append(e.Vs, t.Extra...)
 	for depth := 0; e.K == KUser && depth < 8; depth++ {
 		td := s.TypeDefByName(t.Ref)
 		if td == nil {
